@@ -386,6 +386,8 @@ func resolveExprs(f *FuncInfo, e ast.Expr, depth int) []ast.Expr {
 						defs = append(defs, as.Rhs[i])
 					}
 				}
+			} else if ok && len(as.Rhs) == 1 && len(as.Lhs) > 1 && ObjOf(info, as.Lhs[0]) == o {
+				defs = append(defs, as.Rhs[0]) // v, err := f(...)
 			}
 			return true
 		})
